@@ -48,10 +48,10 @@ CHECKS["C04"] = dict(category=MC, design_ref="5/C04",
     text="The real load_program assembles program texts enumerated from 17 line shapes (real and pseudo instructions, one label at every position stand-alone or in-line - also on expanding pseudos and at the end -, label / label+offset / numeric targets, with/without directives) whose numeric literals are all symbolic (sentinel literals mapped back by the rebound int()); the instruction memory is compared field by field, for all values, with an independent reference assembler. Register-name, mnemonic-case and number-base spelling sets and comment/blank/indent decorations are enumerated completely.",
     note="Trusted: pyparsing on a concrete line, sentinel-literal stand-in (base checked), checks/asm.py reference. Bounds: <=2 instruction lines complete (quick), sampled 3 lines (thorough); texts outside the shapes are outside.")
 CHECKS["C05"] = dict(category=MC, design_ref="5/C05",
-    text="li rd, c for all c in [-2^33, 2^33] through the real load_program and real execution (6 paths: sign x expansion length x carry) leaves c mod 2^32; data-segment layouts over all declaration sequences (byte/half/word/string/zero) with symbolic element values, .zero sizes and indices are compared byte for byte with the reference layout, name[i] in la/load/store pseudo-instructions is executed and checked (indices up to 2^18: every lui/addi carry case), either segment order; the documented example is read from the help page of the working tree and must produce the values its own comments document.",
+    text="li rd, c for all c in [-2^33, 2^33] through the real load_program and real execution (6 paths: sign x expansion length x carry) leaves c mod 2^32; data-segment layouts over all declaration sequences (byte/half/word/string/zero) with symbolic element values, .zero sizes and indices are compared byte for byte with the reference layout, name[i] in la/load/store pseudo-instructions is executed and checked (indices up to 2^18: every lui/addi carry case), either segment order; the documented example is read from the help page of the working tree and must produce the values its own comments document; the same layouts loaded into simulations with a write-back / write-through data cache must read back identically through the memory system.",
     note="Trusted: as C04. Bounds: <=2 (quick) / 3 (thorough) declarations; decimal spellings (other bases lexically in C04/C15).")
 CHECKS["C07"] = dict(category=MC, design_ref="5/C07",
-    text="On every path of the bounded symbolic programs of C02 the cycle in which each instruction retires and the final cycle counter of the real five-stage simulation equal refs/pipe_ref.Timing (in-order recurrences written from the documented schedule: one fetch per cycle, write-before-read, two-bubble decode interlock against EX/MEM, control resolved in MEM, ecall drain); n mutually independent instructions take n+4 cycles (n<=6/8, symbolic registers constrained independent); cycle counter advances by one per step (penalty clause with caches in C11/C09).",
+    text="On every path of the bounded symbolic programs of C02 the cycle in which each instruction retires and the final cycle counter of the real five-stage simulation equal refs/pipe_ref.Timing (in-order recurrences written from the documented schedule: one fetch per cycle, write-before-read, two-bubble decode interlock against EX/MEM, control resolved in MEM, ecall drain); n mutually independent instructions take n+4 cycles (n<=6/8, symbolic registers constrained independent); penalty clause: five-stage runs with an instruction and a data cache and symbolic miss penalties advance the cycle counter in every step by exactly 1 + penalty x counted misses of that step (uncounted reads such as print-string charge nothing).",
     note="Trusted: my reading of the documented schedule (refs/pipe_ref.py, stated in DESIGN 5/C07). Bounds as C02.")
 CHECKS["C08"] = dict(category=MC, design_ref="5/C08",
     text="The real five-stage simulation with hazard detection off is compared on bounded symbolic programs with an executable reference of an interlock-free pipeline (every instruction reads its sources in its last decode cycle and sees exactly the writes whose write-back cycle is <= that cycle; ecall drains; control in MEM): registers, memory, output, exit code, retire order and cycles, no decode-stage stall; nop-padded programs agree with single-cycle mode.",
@@ -78,7 +78,7 @@ CHECKS["C15"] = dict(category=MC, design_ref="5/C15",
     text="For every int() conversion found by an AST scan of the parsers, z3's regex theory compares (no length bound) the literal language the live pyparsing grammar delivers with CPython's accepted literal language; witnesses outside it (and the 4300-digit limit) are pushed through the real load_program in every feeding line shape and must yield ParserException with an existing line. 80+ lexically / structurally faulty texts per assembler may only raise ParserException (valid line) or the size errors. Run time: every faulting class in both modes reports InstructionExecutionException with the address and printed form (symbolic operands).",
     note="Trusted: grammar-to-regex translation, CPython literal grammar. Arbitrary token soups and termination are outside.")
 CHECKS["C16"] = dict(category=MC, design_ref="5/C16",
-    text="After the steps of bounded symbolic programs (both modes, with/without data and instruction caches) and TOY programs every public zero-argument get_*/is_*/has_* method (introspection) is called twice: z3 proves the deep snapshot (registers, memory, caches, replacement state, counters, latches) unchanged and the second result equal to the first, and that no process-wide shared table of the repository (module/class-level lists, dicts, sets) differs from its state right after import.",
+    text="After the steps of bounded symbolic programs (both modes, with/without data and instruction caches) and TOY programs every public zero-argument get_*/is_*/has_* method (introspection) is called twice: z3 proves the deep snapshot (registers, memory, caches, replacement state, counters, latches) unchanged and the second result equal to the first, and that no process-wide shared table of the repository (module/class-level lists, dicts, sets) differs from its state right after import. Differential clause: a twin simulation on the same symbolic initial state on which no inspection function is ever called is stepped alongside; every inspection result and the state of the inspected run must equal those of the twin (after every step on the small harness, at the end elsewhere), which also catches effects kept outside the snapshot (memoised results).",
     note="Bounds: pinned register numbers (dependency chain), initial register values < 2^31, states: initial, first, every 3rd, final; memory-table getter on a small real-dict memory.")
 CHECKS["C17"] = dict(category=MC, design_ref="5/C17",
     text="get_n_bit_representations (n=12,16,32) on a symbolic number in [-2^40,2^40]: the output strings carry one symbolic digit per character, so the repository's grouping code acts on them; z3 proves separator positions and that every binary/hex character is the corresponding bit/nibble of value mod 2^n, and the decimal strings are the unsigned / two's-complement readings. Register table with symbolic values at enumerated positions; data-memory tables for every subset of <=3 written bytes of 9 candidate addresses (rows = written words, ascending, true addresses); TOY tables.",
